@@ -1194,6 +1194,9 @@ class TaskPool:
         for itask in self.get_tasks():
             # Recreate data store elements from task pool.
             self.create_data_store_elements(itask)
+            if itask.state.is_queued:
+                # (queued before the reload: put it in the new queues)
+                self.task_queue_mgr.push_task(itask)
 
     def set_stop_point(self, stop_point: 'PointBase') -> bool:
         """Set the workflow stop cycle point.
